@@ -235,6 +235,12 @@ func checkBuilder(r *vh.Run) {
 
 func TestCheck(t *testing.T) {
 	r := vh.Start(t, "C12")
+	if spins, ok := shareLoopSpins(); ok && !spins {
+		vtMulti = true
+		r.Count("vt_multi_member_enabled", 1)
+	} else if ok {
+		r.Count("share_fetch_loop_spin_observed_vt_single_member", 1)
+	}
 	checkBuilder(r)
 	checkParkedAckError(r)
 
